@@ -21,16 +21,31 @@ type undoItem struct {
 // If this was called while the shell was in the middle of its undo history
 // (eg. the caller has undone one or more times), all undone steps are dropped.
 func (h *Sources) Save() {
-	defer h.Reset()
-
+	// A skipped save changes nothing, the undo position included: the
+	// line might still sit on top of a state that was undone to.
 	if h.skip {
+		h.skip = false
+		h.undoing = false
+
 		return
 	}
+
+	defer h.Reset()
 
 	// Get the undo states for the current line.
 	line := h.getLineHistory()
 	if line == nil {
 		return
+	}
+
+	// When we add an item to the undo history, the history is cut after
+	// the state that was undone to: the undone steps are dropped, not it.
+	if line.pos > len(line.items) {
+		line.pos = len(line.items)
+	}
+
+	if line.pos > 0 {
+		line.items = line.items[:len(line.items)-line.pos+1]
 	}
 
 	// When the line is identical to the previous undo, we just update
@@ -39,14 +54,6 @@ func (h *Sources) Save() {
 		line.items[len(line.items)-1].pos = h.cursor.Pos()
 		return
 	}
-
-	// When we add an item to the undo history, the history
-	// is cut from the current undo hist position onwards.
-	if line.pos > len(line.items) {
-		line.pos = len(line.items)
-	}
-
-	line.items = line.items[:len(line.items)-line.pos]
 
 	// Make a copy of the cursor and ensure its position.
 	cur := core.NewCursor(h.line)
@@ -91,12 +98,29 @@ func (h *Sources) Undo() {
 
 	// The text we start undoing from might not have been saved yet
 	// (typed characters are not): keep it, so that redo can come back to it.
-	if line.pos == 0 && line.items[len(line.items)-1].line != string(*h.line) {
-		line.items = append(line.items, undoItem{
+	// Typed after some undos, it takes the place of the undone steps.
+	items, back := line.items, line.pos
+	if back > len(items) {
+		back = len(items)
+	}
+
+	// The state the line sits on: the newest one, or the one undone to.
+	at := back
+	if at < 1 {
+		at = 1
+	}
+
+	last := len(items) - at
+
+	if items[last].line != string(*h.line) {
+		line.items = append(items[:last+1], undoItem{
 			line: string(*h.line),
 			pos:  h.cursor.Pos(),
 		})
+		back = 0
 	}
+
+	line.pos = back
 
 	// When undoing, we loop through preceding undo items
 	// as long as they are identical to the current line.
@@ -155,17 +179,29 @@ func (h *Sources) Redo() {
 	}
 
 	// Nothing has been undone: nothing to redo.
-	if line.pos < 1 {
+	items, back := line.items, line.pos
+	if back < 1 {
 		return
 	}
 
-	line.pos--
+	if back > len(items) {
+		back = len(items)
+	}
 
-	if line.pos < 1 {
+	// A new edit made after an undo discards the
+	// steps that were undone: nothing to redo.
+	if items[len(items)-back].line != string(*h.line) {
 		return
 	}
 
-	undo := line.items[len(line.items)-line.pos]
+	back--
+	line.pos = back
+
+	if back < 1 {
+		return
+	}
+
+	undo := items[len(items)-back]
 	h.line.Set([]rune(undo.line)...)
 	h.cursor.Set(undo.pos)
 }
